@@ -51,7 +51,7 @@ pub fn value_text(case: &Value) -> Option<String> {
         "changes::File" => debian_control::lossless::changes::File { md5sum: TOKS[f[0]].into(), size: size(f[1]), section: ["libs", "non-free/x11"][f[2] - 1].into(), priority: prio(f[3]), filename: TOKS[f[4] - 1].into() }.to_string(),
         "ParsedVcs" => debian_control::vcs::ParsedVcs { repo_url: URLS[f[0] - 1].into(), branch: if f[1] == 0 { None } else { Some(BR[f[1] - 1].into()) }, subpath: if f[2] == 0 { None } else { Some(SP[f[2] - 1].into()) } }.to_string(),
         "Dep3OriginField" => { let cat = ["", "backport, ", "vendor, ", "upstream, ", "other, "][f[0]]; let t = ["abc123", "https://x.example/c/1", "1.2.3", "é"][f[2] - 1]; format!("{}{}{}", cat, if f[1] == 1 { "commit:" } else { "" }, t) }
-        "License" => { let n = ["GPL-3+", "MIT"][f[1] - 1]; let t = ["one line", "two\nlines", " .\n x"][f[2] - 1]; match f[0] { 1 => n.to_string(), 2 => format!("\n{}", t), _ => format!("{}\n{}", n, t) } }
+        "License" => { let n = ["GPL-3+", "MIT"][f[1] - 1]; let t = ["one line", "two\nlines", " .\n x", "a\n\nb"][f[2] - 1]; match f[0] { 1 => n.to_string(), 2 => format!("\n{}", t), _ => format!("{}\n{}", n, t) } }
         _ => return None,
     })
 }
@@ -140,7 +140,7 @@ pub fn run(case: &Value, _seed: u64) -> Outcome {
                 Err(m) => o.v("C18", "value_roundtrip", "dep3 Origin field (lossless)", "panic", &feats, &text, m),
             }
         }
-        "License" => { use debian_copyright::License; let n = ["GPL-3+", "MIT"][f[1] - 1].to_string(); let t = ["one line", "two\nlines", " .\n x"][f[2] - 1].to_string();
+        "License" => { use debian_copyright::License; let n = ["GPL-3+", "MIT"][f[1] - 1].to_string(); let t = ["one line", "two\nlines", " .\n x", "a\n\nb"][f[2] - 1].to_string();
             rt(&mut o, ty, &(match f[0] { 1 => License::Name(n), 2 => License::Text(t), _ => License::Named(n, t) }), |v| v.to_string(), &feats) }
         "Signature" => { use apt_sources::signature::Signature; let t = ["/usr/share/keyrings/x.gpg", "-----BEGIN PGP PUBLIC KEY BLOCK-----\n.\nmQ\n-----END PGP PUBLIC KEY BLOCK-----", "a\nb"][f[1] - 1];
             let v = if f[0] == 1 { if t.contains('\n') { return o; } Signature::KeyPath(t.into()) } else { if !t.contains('\n') { return o; } Signature::KeyBlock(t.into()) };
